@@ -142,7 +142,7 @@ exactly the requested axes, and its node / edge property dicts are — in order 
 coordinates, the requested extra properties (requested dtype, or the caller's array untouched), a
 var-length property iff requested, a sparse property iff requested (of node resp. **edge** length);
 the props metadata describes exactly these properties. -/
-theorem C20_params (p : Params) (g : Geff) (h : createDummyInMemGeff p = .ok g)
+theorem C20_params (ok : Bool) (p : Params) (g : Geff) (h : createDummyInMemGeff ok p = .ok g)
     (hn : (nodeNames p).Nodup) (he : (edgeNames p).Nodup) :
     g.numNodes = p.numNodes ∧ g.idDtype = npName p.idDtype ∧ g.directed = p.directed ∧
     (∃ es, g.edges = es.map cast ∧ EdgesSpec p.directed p.numNodes p.numEdges es) ∧
@@ -154,7 +154,7 @@ theorem C20_params (p : Params) (g : Geff) (h : createDummyInMemGeff p = .ok g)
     (∃ xe, g.edgeProps = xe ++ (if p.ms then [("sparse_prop", sparseProp g.edges.length)] else []) ∧
         List.Forall₂ (Requested g.edges.length) (itemsOf p.extraEdge) xe) ∧
     Describes g.nodeMeta g.nodeProps ∧ Describes g.edgeMeta g.edgeProps := by
-  obtain ⟨es, xn, xe, hgen, _, _, hxn, hxe, rfl⟩ := createDummy_ok h
+  obtain ⟨es, xn, xe, hgen, _, _, hxn, hxe, _, rfl⟩ := createDummy_ok h
   have hxn' := extraTriples_ok hxn
   have hxe' := extraTriples_ok hxe
   obtain ⟨es', hes', hspec⟩ := C20_edges p.directed p.numNodes p.numEdges
@@ -315,9 +315,9 @@ theorem origin_edge {ms : Bool} {E : Nat} {items : List (Option String × Req)} 
 
 /-- **C20 (lengths)** — no assumption on names: every node property has one entry per node and every
 edge property one entry per edge (what `write_arrays` and the structural validator require). -/
-theorem C20_lengths (p : Params) (g : Geff) (h : createDummyInMemGeff p = .ok g) :
+theorem C20_lengths (ok : Bool) (p : Params) (g : Geff) (h : createDummyInMemGeff ok p = .ok g) :
     (∀ kv ∈ g.nodeProps, kv.2.len = g.numNodes) ∧ (∀ kv ∈ g.edgeProps, kv.2.len = g.edges.length) := by
-  obtain ⟨es, xn, xe, _, _, _, hxn, hxe, rfl⟩ := createDummy_ok h
+  obtain ⟨es, xn, xe, _, _, _, hxn, hxe, _, rfl⟩ := createDummy_ok h
   constructor
   · intro kv hkv
     rcases origin_node (extraTriples_ok hxn) hkv with h | ⟨_, rfl⟩ | ⟨_, rfl⟩
@@ -330,9 +330,9 @@ theorem C20_lengths (p : Params) (g : Geff) (h : createDummyInMemGeff p = .ok g)
     · rfl
 
 /-- **C20 (var-length iff requested)** — no assumption on names. -/
-theorem C20_varlength_iff (p : Params) (g : Geff) (h : createDummyInMemGeff p = .ok g) :
+theorem C20_varlength_iff (ok : Bool) (p : Params) (g : Geff) (h : createDummyInMemGeff ok p = .ok g) :
     (∃ kv ∈ g.nodeProps ++ g.edgeProps, kv.2.varlength = true) ↔ p.vl = true := by
-  obtain ⟨es, xn, xe, _, _, _, hxn, hxe, rfl⟩ := createDummy_ok h
+  obtain ⟨es, xn, xe, _, _, _, hxn, hxe, _, rfl⟩ := createDummy_ok h
   constructor
   · rintro ⟨kv, hkv, hv⟩
     rcases List.mem_append.1 hkv with hkv | hkv
@@ -360,14 +360,14 @@ theorem C20_varlength_iff (p : Params) (g : Geff) (h : createDummyInMemGeff p = 
 it is the var-length property (when requested) or the sparse property (when requested); and when
 `include_missing` is set both the node side and the edge side carry `sparse_prop`, every other
 entry missing, of node resp. edge length. -/
-theorem C20_sparse_iff (p : Params) (g : Geff) (h : createDummyInMemGeff p = .ok g) :
+theorem C20_sparse_iff (ok : Bool) (p : Params) (g : Geff) (h : createDummyInMemGeff ok p = .ok g) :
     (∀ kv ∈ g.nodeProps, kv.2.missing ≠ none →
         (p.vl = true ∧ kv = ("var_length", varLengthProp p.numNodes)) ∨
         (p.ms = true ∧ kv = ("sparse_prop", sparseProp p.numNodes))) ∧
     (∀ kv ∈ g.edgeProps, kv.2.missing ≠ none → p.ms = true ∧ kv = ("sparse_prop", sparseProp g.edges.length)) ∧
     (p.ms = true → ("sparse_prop", sparseProp p.numNodes) ∈ g.nodeProps ∧
                    ("sparse_prop", sparseProp g.edges.length) ∈ g.edgeProps) := by
-  obtain ⟨es, xn, xe, _, _, _, hxn, hxe, rfl⟩ := createDummy_ok h
+  obtain ⟨es, xn, xe, _, _, _, hxn, hxe, _, rfl⟩ := createDummy_ok h
   refine ⟨?_, ?_, ?_⟩
   · intro kv hkv hm
     rcases origin_node (extraTriples_ok hxn) hkv with h | h | h
@@ -392,25 +392,20 @@ theorem C20_sparse_iff (p : Params) (g : Geff) (h : createDummyInMemGeff p = .ok
 /-! ### the forwarding helpers and the store -/
 
 /-- `create_mock_geff` forwards all thirteen parameters: it succeeds exactly when the inner
-generator and the write succeed, and returns the inner generator's geff. -/
+generator succeeds, returns the inner generator's geff and writes the store from it. -/
 theorem createMock_ok_iff (ok : Bool) (p : Params) (w : Written) (g : Geff) :
-    createMockGeff ok p = .ok (w, g) ↔ createDummyInMemGeff p = .ok g ∧ writeArrays ok g = .ok w := by
+    createMockGeff ok p = .ok (w, g) ↔ createDummyInMemGeff ok p = .ok g ∧ w = ⟨g⟩ := by
   unfold createMockGeff
-  show (match createDummyInMemGeff p with
+  show (match createDummyInMemGeff ok p with
         | .valueError => _ | .other e => _ | .ok g => _) = _ ↔ _
-  cases hd : createDummyInMemGeff p with
+  cases hd : createDummyInMemGeff ok p with
   | valueError => simp
   | other e => simp
   | ok g' =>
-    simp only
-    cases hw : writeArrays ok g' with
-    | valueError => simp; intro hg; subst hg; simp [hw]
-    | other e => simp; intro hg; subst hg; simp [hw]
-    | ok w' =>
-      simp only [Outcome.ok.injEq, Prod.mk.injEq]
-      constructor
-      · rintro ⟨rfl, rfl⟩; exact ⟨rfl, hw⟩
-      · rintro ⟨rfl, hw'⟩; rw [hw] at hw'; cases hw'; exact ⟨rfl, rfl⟩
+    simp only [writeArrays, Outcome.ok.injEq, Prod.mk.injEq]
+    constructor
+    · rintro ⟨rfl, rfl⟩; exact ⟨rfl, rfl⟩
+    · rintro ⟨rfl, rfl⟩; exact ⟨rfl, rfl⟩
 
 /-- what has to hold of an in-memory geff for `write_arrays` / `read_to_memory` to round-trip it
 (the hypotheses of C01) and for it to be graph-valid (C12): property lengths, unique names, node ids
@@ -427,47 +422,69 @@ the **same thirteen parameters**, and it satisfies the preconditions under which
 back is the identity (C01) and graph validation succeeds (C12). -/
 theorem C20_store_eq_memory (ok : Bool) (p : Params) (w : Written) (g : Geff)
     (h : createMockGeff ok p = .ok (w, g)) :
-    w.geff = g ∧ createDummyInMemGeff p = .ok g ∧ WritePre p.directed g := by
+    w.geff = g ∧ createDummyInMemGeff ok p = .ok g ∧ WritePre p.directed g := by
   obtain ⟨hd, hw⟩ := (createMock_ok_iff ok p w g).1 h
-  refine ⟨?_, hd, ?_⟩
-  · unfold writeArrays at hw
-    split at hw
-    · cases hw
-    · cases hw; rfl
-  · obtain ⟨hl1, hl2⟩ := C20_lengths p g hd
-    obtain ⟨es, xn, xe, hgen, _, _, _, _, rfl⟩ := createDummy_ok hd
-    obtain ⟨es', hes', hspec⟩ := C20_edges p.directed p.numNodes p.numEdges
-    have hes : es = es'.map cast := by rw [hes'] at hgen; cases hgen; rfl
-    exact ⟨hl1, hl2, nodup_keys_pushAll _ _ List.nodup_nil, nodup_keys_pushAll _ _ List.nodup_nil,
-      es', hes, hspec.2.1, hspec.2.2⟩
+  refine ⟨by rw [hw], hd, ?_⟩
+  obtain ⟨hl1, hl2⟩ := C20_lengths ok p g hd
+  obtain ⟨es, xn, xe, hgen, _, _, _, _, _, rfl⟩ := createDummy_ok hd
+  obtain ⟨es', hes', hspec⟩ := C20_edges p.directed p.numNodes p.numEdges
+  have hes : es = es'.map cast := by rw [hes'] at hgen; cases hgen; rfl
+  exact ⟨hl1, hl2, nodup_keys_pushAll _ _ List.nodup_nil, nodup_keys_pushAll _ _ List.nodup_nil,
+    es', hes, hspec.2.1, hspec.2.2⟩
 
-/-- … and `create_mock_geff` accepts whatever the inner generator accepts, except — on a tree where
-defect D15 is unrepaired (`ok = false`) — a var-length property on an empty node set. -/
-theorem C20_mock_accepts (ok : Bool) (p : Params) (g : Geff) (h : createDummyInMemGeff p = .ok g)
+/-- … and `create_mock_geff` accepts exactly what the inner generator accepts. -/
+theorem C20_mock_accepts (ok : Bool) (p : Params) (g : Geff) (h : createDummyInMemGeff ok p = .ok g) :
+    createMockGeff ok p = .ok (⟨g⟩, g) :=
+  (createMock_ok_iff ok p ⟨g⟩ g).2 ⟨h, rfl⟩
+
+/-- what one well-formed `extra_*_props` argument is: `None` or a dict with string keys whose values
+are supported dtype strings or arrays with one entry per node / edge -/
+def ExtraOk (len : Nat) (x : Extra) : Prop :=
+  x ≠ .notDict ∧ ∀ item ∈ itemsOf x, (∃ k, item.1 = some k) ∧
+    ((∃ d, item.2 = .auto d ∧ d ∈ dtypeStrs) ∨ (∃ d tag, item.2 = .arr d len tag))
+
+theorem extraTriples_total {len : Nat} {items : List (Option String × Req)}
+    (h : ∀ item ∈ items, (∃ k, item.1 = some k) ∧
+      ((∃ d, item.2 = .auto d ∧ d ∈ dtypeStrs) ∨ (∃ d tag, item.2 = .arr d len tag))) :
+    ∃ ts, extraTriples len items = .ok ts := by
+  induction items with
+  | nil => exact ⟨[], rfl⟩
+  | cons it rest ih =>
+    obtain ⟨ts, hts⟩ := ih (fun item hi => h item (List.mem_cons_of_mem _ hi))
+    obtain ⟨⟨k, hk⟩, hreq⟩ := h it (by simp)
+    obtain ⟨key, req⟩ := it
+    simp only at hk hreq
+    subst hk
+    rcases hreq with ⟨d, rfl, hd⟩ | ⟨d, tag, rfl⟩
+    · refine ⟨(k, { dtype := npName d, len := len, varlength := false, missing := none, values := autoValues k d len },
+                    { dtype := npName d, varlength := false, unit := none }) :: ts, ?_⟩
+      simp [extraTriples, stepOut, hts, hd]
+    · refine ⟨(k, { dtype := d, len := len, varlength := false, missing := none, values := .given tag },
+                    { dtype := d, varlength := false, unit := none }) :: ts, ?_⟩
+      simp [extraTriples, stepOut, hts]
+
+/-- **C20 (what is accepted)**: the generator accepts *every* parameter record whose extra-property
+arguments are well-formed (array lengths = number of nodes resp. `min(requested, possible)` edges) —
+for all dtypes names, flags, sizes — except, on a tree where defect D15 is unrepaired (`ok = false`),
+a var-length property on an empty node set. -/
+theorem C20_accepts (ok : Bool) (p : Params)
+    (hn : ExtraOk p.numNodes p.extraNode)
+    (he : ExtraOk (min p.numEdges (maxPossible p.directed p.numNodes)) p.extraEdge)
     (hok : ok = true ∨ p.numNodes ≠ 0 ∨ p.vl = false) :
-    createMockGeff ok p = .ok (⟨g⟩, g) := by
-  rw [createMock_ok_iff]
-  refine ⟨h, ?_⟩
-  unfold writeArrays
-  split
-  · rename_i hc
-    simp only [Bool.and_eq_true, Bool.not_eq_eq_eq_not, Bool.not_true, beq_iff_eq, List.any_eq_true] at hc
-    obtain ⟨⟨hok', hn⟩, kv, hkv, hv⟩ := hc
-    have hvl := (C20_varlength_iff p g h).1 ⟨kv, List.mem_append_left _ hkv, hv⟩
-    have hnn : g.numNodes = p.numNodes := by
-      obtain ⟨es, xn, xe, _, _, _, _, _, rfl⟩ := createDummy_ok h; rfl
-    rcases hok with h1 | h1 | h1
-    · rw [h1] at hok'; cases hok'
-    · exact absurd (hnn ▸ hn) h1
-    · rw [h1] at hvl; cases hvl
-  · rfl
+    ∃ g, createDummyInMemGeff ok p = .ok g := by
+  obtain ⟨es', hes', hspec⟩ := C20_edges p.directed p.numNodes p.numEdges
+  obtain ⟨xn, hxn⟩ := extraTriples_total hn.2
+  have hlen : (es'.map cast).length = min p.numEdges (maxPossible p.directed p.numNodes) := by
+    rw [List.length_map]; exact hspec.1
+  obtain ⟨xe, hxe⟩ := extraTriples_total he.2
+  exact createDummy_accepts ok p _ xn xe hes' hn.1 he.1 hxn (by rw [hlen]; exact hxe) hok
 
-/-- the excluded case is real (defect D15, recorded as a known finding until the C01 repair lands):
-on an unrepaired tree `create_mock_geff(num_nodes=0, include_varlength=True)` raises `IndexError`
-although `create_dummy_in_mem_geff` accepts the same parameters. -/
+/-- the excluded case is real (defect D15 of `create_props_metadata`, owned by C01; recorded as a
+known finding until that repair lands): on an unrepaired tree `include_varlength` with
+`num_nodes = 0` raises `IndexError`. -/
 theorem C20_counterexample_empty_varlength :
-    createMockGeff false { idDtype := "uint8", timeDtype := "float64", posDtype := "float64",
-                           directed := true, numNodes := 0, numEdges := 0, vl := true }
+    createDummyInMemGeff false { idDtype := "uint8", timeDtype := "float64", posDtype := "float64",
+                                 directed := true, numNodes := 0, numEdges := 0, vl := true }
       = .other "IndexError" := by decide
 
 /-- the four convenience wrappers are `create_mock_geff` on fixed parameter records -/
